@@ -528,11 +528,22 @@ pub fn supervise<P: Prop>(
     let _ = fs::create_dir_all(&replay_dir);
     let mut agg = Aggregate::new();
     let only_lane = std::env::var("TUVERIF_LANE").ok();
-    for lane in P::lanes(tier) {
+    let scale: f64 = std::env::var("TUVERIF_SCALE")
+        .ok()
+        .and_then(|s| s.parse().ok())
+        .unwrap_or(1.0);
+    for mut lane in P::lanes(tier) {
         if let Some(l) = &only_lane {
             if l != lane.name {
                 continue;
             }
+        }
+        if std::env::var("TUVERIF_NO_EXTRA").is_ok() && lane.name.ends_with("-release") {
+            continue;
+        }
+        if scale != 1.0 {
+            lane.cases = ((lane.cases as f64 * scale) as u64).max(lane.shards as u64);
+            lane.floor = ((lane.floor as f64 * scale * 0.5) as u64).max(2);
         }
         run_lane::<P>(&lane, tier, seed, &run_dir, &replay_dir, &mut agg);
     }
